@@ -65,11 +65,11 @@ PROPS = {
         GO_SM + "; the manager handlers are the hand-written Node.v programs, tied to impl/*.go by the node correspondence suites (nodeterminal is the exhaustive terminal product)",
         corr=NODE_CORR,
         assumptions=["a reopened datastore yields a fresh machine on the stored record (m_init)"]),
-    "C07": P("props/C07.v", ["fsmreports"],
+    "C07": P("props/C07.v", ["fsmreports", "fsmrace"],
         "Coq theorems (invariant by induction over report histories with restarts; closed payload formula) over Caches.fire and the generated FSM actions; correspondence of the real Channels.DataQueued/DataSent/DataReceived incl. cache contents against the model; direct totals monitors",
         "Machine-checked proof for every direction, block function and well-shaped history with process restarts anywhere: byte total = summed size of unique blocks at distinct reported positions (mod 2^64), index = highest position; replays and non-unique blocks never count; for arbitrary report lists total = sum of reports that advanced the lazily seeded mark.",
-        "Sequential reporters (the concurrent CAS clause is validated by the race-stress suite, not proved); atomicity of Go's CompareAndSwapInt64/AddUint64 assumed; crash points are between reports (C07's quantifier)",
-        corr=["corr/CacheCorr.v"]),
+        "The concurrent clause is a theorem over all interleavings of a micro-step model (Conc.v: read-locked lookup, write-locked seed with re-check, atomic load, CAS, FSM-serialized events); it is tied to the code by the fsmrace suite, where the Go scheduler picks the interleaving (not enumerated) and the verdict is membership of the observed outcome in the set of sequential outcomes; atomicity of Go's CompareAndSwapInt64 / RWMutex and GetByID's synchronisation with the FSM queue are assumed; crash points are between reports (C07's quantifier)",
+        corr=["corr/CacheCorr.v", "corr/RaceCorr.v"]),
     "C08": P("props/C08.v", ["fsmreports", "nodeapi"],
         "Coq theorems over Caches.fire/set_limit (pause iff the advancing report brings the limited total to or past a non-zero limit; cache and store agree; restart re-seeds) ; enumerated limit boundaries (every prefix sum -1/0/+1, restart between reports) against the real Channels",
         "Machine-checked proof of the pause rule at cache/FSM level for all reports and limits, with the cache-consistency invariant preserved by reports, SetDataLimit and restarts. Manager-level resume/reject rules are in the node suites.",
